@@ -167,7 +167,11 @@ def run(ctx):
             if rp["kind"] != rf["kind"] or rp["kind"] != c["expect"]:
                 ctx.violation("envelope_kind_differs", f"{c['wire']!r}: kind pydantic={rp['kind']} fallback={rf['kind']} "
                               f"expected {c['expect']}", case)
-            if "id" in c["wire"]:
+            if c.get("float_id"):
+                if (rp["id_type"], tagged(rp["id"])) != (rf["id_type"], tagged(rf["id"])):
+                    ctx.violation("id_type_changed", f"id {c['wire']['id']!r}: pydantic parses it as {rp['id']!r} ({rp['id_type']}), "
+                                  f"fallback as {rf['id']!r} ({rf['id_type']})", case)
+            elif "id" in c["wire"]:
                 want = type(c["wire"]["id"]).__name__
                 for lab, r in (("pydantic", rp), ("fallback", rf)):
                     if r["id_type"] != want or tagged(r["id"]) != tagged(c["wire"]["id"]):
